@@ -7,9 +7,12 @@ excludes float keys (`savable`).  known/C16.jsonl replays the same input on the 
 
 The other theorems are the former witnesses of the findings K1-K3, which were repaired in round 2 (`fix:` commits
 CR escape, inf/nan text, mblen): they now state the repaired behaviour on the very inputs that used to fail.
+Open finding C16-K6 (same variable name at two inheritance levels): `same_name_saved`, `same_name_variables`.
+
 (K4, subnormal floats, concerns IEEE arithmetic, a parameter of the model: no Lean evaluation; replayed on the driver.)
 -/
 import NV.C16.Model
+import NV.C16.Tree
 
 namespace NV.C16.Witness
 
@@ -87,5 +90,25 @@ theorem inf_is_written_as_number :
     restoreVariable infF asciiMb (save infF (.arr (.cons (.real ()) .nil)))
       = RvOut.value (.arr (.cons (.real ()) .nil)) := by
   refine ⟨rfl, rfl, rfl⟩
+
+/-! ### open: K6 — two variables of one name at different inheritance levels -/
+
+/-- program `s0` defines `x`; program `s1` inherits `s0` and defines its own `x` -/
+def s0 : Prog := .mk [115, 48] 1 .nil [⟨[120], 1⟩]
+def s1 : Prog := .mk [115, 49] 2 (.cons 0 0 s0 .nil) [⟨[120], 1⟩]
+
+/-- save_object writes both (`x "a"` for the inherited, `x "b"` for the own variable) ... -/
+theorem same_name_saved :
+    saveTreeLines unitF true s1 [.str [97], .str [98]]
+      = some [[120, 32, 34, 97, 34, 10], [120, 32, 34, 98, 34, 10]] := by rfl
+
+/-- ... and restore_object assigns both lines to the inherited `x`: it ends up with the value of the own `x`,
+whose slot stays 0  (known finding C16-K6-same-name) -/
+theorem same_name_variables :
+    (match (restoreObjectT unitF asciiMb false
+        (some ([35, 47, 115, 49, 10] ++ [120, 32, 34, 97, 34, 10] ++ [120, 32, 34, 98, 34, 10])) s1
+        [.str [97], .str [98]]).2 with
+      | .done vals => vals
+      | _ => []) = [.str [98], .int 0] := by rfl
 
 end NV.C16.Witness
